@@ -112,8 +112,8 @@ func (h *StreamSrv) Done(id int) bool {
 
 type StreamCli struct {
 	SubNaN func(ctx context.Context, id int) (<-chan float64, error)
-	Sub  func(ctx context.Context, id int, n int) (<-chan int, error)
-	Echo func(ctx context.Context, tok int) (int, error)
+	Sub    func(ctx context.Context, id int, n int) (<-chan int, error)
+	Echo   func(ctx context.Context, tok int) (int, error)
 }
 
 // consumer state of one subscription on the client side
@@ -182,6 +182,9 @@ func init() {
 			add("k1-l40-late", 1, map[string]int{"k": 1, "l0": 40, "mode": 1})
 			add("k1-l40-attentive", 1, map[string]int{"k": 1, "l0": 40, "mode": 0})
 			add("k2-l40,3-stalled0", 0, map[string]int{"k": 2, "l0": 40, "l1": 3, "mode": 2})
+			// longer than the frame executor's 256-slot queue and the 32-slot sink buffer
+			add("k1-l300-late", 0, map[string]int{"k": 1, "l0": 300, "mode": 1})
+			add("k1-l300-attentive", 0, map[string]int{"k": 1, "l0": 300, "mode": 0})
 			add("k3-l1,3,3-attentive", 2, map[string]int{"k": 3, "l0": 1, "l1": 3, "l2": 3, "mode": 0})
 			add("k3-l3,1,3-attentive", 1, map[string]int{"k": 3, "l0": 3, "l1": 1, "l2": 3, "mode": 0})
 			add("k3-l1,3,3-sync", 2, map[string]int{"k": 3, "l0": 1, "l1": 3, "l2": 3, "mode": 0, "sync": 1})
